@@ -115,7 +115,7 @@ ViewsAgree == \A i \in 1..NP : MLk(m, i) \in {Unknown, Lk(s.frames, i)}
 Ops2223 == <<2, 2, 3, 2>>
 Ops2222 == <<2, 2, 2, 2>>
 Ops3333 == <<3, 3, 3, 3>>
-Ops3343 == <<3, 3, 4, 3>>
+Ops3332 == <<3, 3, 3, 2>>
 Ops4444 == <<4, 4, 4, 4>>
 Ops0040 == <<0, 0, 4, 0>>
 Ops5000 == <<5, 0, 0, 0>>
